@@ -114,7 +114,7 @@ def run_shard(spec):
     # --- 4. assembly-level leg
     nasm = (800 if spec["tier"] == "quick" else 12000) // parts + 1
     for i in range(nasm):
-        mode = rnd.choice(["ascii_ok", "ascii_bad", "char_ok", "char_bad", "dchar_ok", "dchar_bad", "asciz_ok"])
+        mode = rnd.choice(["ascii_ok", "ascii_bad", "char_ok", "char_bad", "dchar_ok", "dchar_bad", "asciz_ok", "tape_ok", "tape_bad"])
         pool = [c for c in good if c not in "\"\\'/\n\r\t<" and c != "¤"]
         if mode.endswith("_ok"):
             chars = [rnd.choice(pool) for _ in range(rnd.randrange(1, 12))]
@@ -129,6 +129,14 @@ def run_shard(spec):
                 pools = [pl for pl in _foldable(ref_chars) if pl]
                 bad = rnd.choice(rnd.choice(pools))
             chars[rnd.randrange(len(chars))] = bad
+        if mode.startswith("tape"):
+            # a tape name is table text like any other, its last characters included: blank-like table characters keep their own byte,
+            # blank-like characters outside the table are refused
+            chars = chars[:10]
+            if mode == "tape_ok":
+                chars.append(rnd.choice(["\t", "\x0b", "\x0c", "\x1c", "\x1f", "\x85", " ", "я", "Z"]))
+            elif rnd.random() < 0.6:
+                chars = [c for c in chars if c in ref_chars] + [rnd.choice(["\u2003", "\u3000", "\xa0", "\u2009", "\u205f"])]
         case = {"kind": "asm", "mode": mode, "chars": "".join(chars), "before": rnd.choice([None, None, "utf-8", "cp866", "koi8-r", "latin-1", "utf-16"])}
         vs = run_case(case, cnt)
         res["violations"].extend(vs)
@@ -236,6 +244,9 @@ def run_case(case, cnt=None):
             directive = ".asciz" if mode.startswith("asciz") else ".ascii"
             src = f'{directive} "{chars}"\n'
             expect = bytes(ref_chars.get(c, 0) for c in chars) + (b"\0" if directive == ".asciz" else b"")
+        elif mode.startswith("tape"):
+            src = f'make_wav "t9.wav", "{chars}"\n.word 1\n'
+            expect = None
         elif mode.startswith("char"):
             src = "".join(f".word '{c}\n" for c in chars)
             expect = b"".join(bytes([ref_chars.get(c, 0), 0]) for c in chars)
@@ -262,6 +273,13 @@ def run_case(case, cnt=None):
         else:
             if o.cls != "ok":
                 viol(f"encodable text rejected: {o.brief()} for {src!r}")
+            elif expect is None:
+                want = bytes(ref_chars[c] for c in chars).ljust(16, b" ")
+                names = [a for ent in (o.emitted or []) for a in ent[4:] if isinstance(a, (bytes, bytearray))]
+                if cnt is not None:
+                    cnt["tape_names_compared"] = cnt.get("tape_names_compared", 0) + 1
+                if not names or bytes(names[0]).ljust(16, b" ") != want:
+                    viol(f"tape name {chars!r}: header name {[bytes(n).hex() for n in names]}, expected {want.hex()}")
             else:
                 if cnt is not None:
                     cnt["asm_bytes_compared"] += len(expect)
